@@ -456,6 +456,47 @@ def rule_update_scheduler(ck):
                ok="the loaded simulator's scheduler gets an interface", bad="the loaded simulator's scheduler has no interface", sink="load:interface")
 
 
+def rule_registry_binding(ck, rid="C09.R3"):
+    """the three dictionaries of the (de)serialisation protocol - attribute_dict (one object's fields), context_dict (all dumped
+    objects by id), loaded_dict (objects already rebuilt) - are never passed in each other's place: at every call of a protocol
+    function an argument that *is* one of the three names is bound to the parameter of the same name"""
+    repo = ck.repo
+    trio = {"attribute_dict", "context_dict", "loaded_dict"}
+    protocol = {"_from_dict", "_from_dict_helper", "_build_from_id", "_from_registry", "_to_registry", "_to_dict"}
+    sig = {}
+    for nm in protocol:
+        cands = [f for f in repo.funcs.get(f"BaseSimObj.{nm}", [])]
+        if cands:
+            sig[nm] = cands[0]
+    n = 0
+    for f in repo.all_functions():
+        if "/tests/" in f.module or f.cls is None or "BaseSimObj" not in [c.name for c in repo.mro(f.cls)]:
+            continue
+        for c in [x for x in walk_local(f.node) if isinstance(x, ast.Call) and call_name(x) in sig]:
+            callee = sig[call_name(c)]
+            try:
+                b = bind_args(c, callee, method=True)
+            except AnalysisError:
+                continue
+            for p_, a in b.items():
+                if isinstance(a, ast.Name) and a.id in trio and p_ in trio:
+                    n += 1
+                    ck.require(a.id == p_, rid, f, c, ok=f"{a.id} -> {p_}", bad=f"`{a.id}` is passed as the `{p_}` of {call_name(c)}: the registry of dumped objects and the "
+                               f"memo of rebuilt ones (or one object's fields) are confused", sink=f"{f.qual}:{call_name(c)}:{p_}<-{a.id}")
+    ck.floor(rid, n, 30, "protocol dictionaries passed between (de)serialisation functions")
+
+
+def rule_constructors(ck, rid="C09.R8"):
+    """restoring an object goes through its constructor (R1d maps dumped keys to constructor parameters): the constructor must put each
+    parameter into the attribute of its own name (shared engine rules.same_name_constructor)"""
+    from ..rules import same_name_constructor
+    n = 0
+    for cname in CORE:
+        ci = ck.repo.cls(cname)
+        n += same_name_constructor(ck, rid, ci, exceptions={("Battery", "_current_charge"), ("Battery", "_init_charge")})
+    ck.floor(rid, n, 25, "parameter-to-attribute stores of the core simulator classes")
+
+
 def rule_json_order(ck, rid="C09.R7"):
     """the station order of a network lives in the insertion order of its EVSE mapping while voltages, phase angles and constraint
     columns are positional: the JSON text must keep every mapping in insertion order, i.e. no dump re-orders keys (sort_keys) and no
@@ -485,6 +526,8 @@ def rule_json_order(ck, rid="C09.R7"):
 
 def run(ck):
     ck.attempt(rule_json_order)
+    ck.attempt(rule_registry_binding)
+    ck.attempt(rule_constructors)
     ck.attempt(rule_agreement)
     ck.attempt(rule_ctor_identity)
     ck.attempt(rule_threading)
